@@ -71,11 +71,11 @@ class Retry(Exception):
 
 def _size(rnd):
     t = rnd.random()
-    if t < 0.12:
+    if t < 0.07:
         return 3
-    if t < 0.22:
+    if t < 0.14:
         return 4
-    if t < 0.40:
+    if t < 0.34:
         return rnd.randint(5, 8)
     if t < 0.72:
         return rnd.randint(9, 30)
@@ -332,7 +332,7 @@ def gen_model(rnd, lay=None, small=False):
 # ------------------------------------------------------------------------------------------------------
 # query generator
 # ------------------------------------------------------------------------------------------------------
-QCLASSES = [('node', 12), ('edge', 10), ('interior', 20), ('dyadic', 4), ('ring', 10), ('second-ring', 9), ('probe', 16),
+QCLASSES = [('node', 12), ('edge', 10), ('interior', 24), ('dyadic', 4), ('ring', 7), ('second-ring', 10), ('probe', 14),
             ('corner-probe', 4), ('on-edge', 5), ('outside', 7), ('near-node', 3)]
 _QC = [c for c, w in QCLASSES for _ in range(w)]
 
@@ -534,6 +534,13 @@ class Session:
         self.ctx.count('oracle_file_selfchecks')
         self.ctx.count('oracle_values_crosschecked', n)
         self.grid = None
+        self._loc = (None, None)
+
+    def locate(self, lat, lon):
+        """nx.locate, remembered for the position being worked on (each position is used by three calls)."""
+        if self._loc[0] != (lat, lon):
+            self._loc = ((lat, lon), nx.locate(self.model, lat, lon))
+        return self._loc[1]
 
     def case(self, op, **kw):
         c = {'op': op, 'model': self.model}
@@ -603,7 +610,7 @@ class Session:
         """Calls interpolate_ntv2 under the monitors and judges every clause.  Returns the library result or None."""
         ctx, model, mon = self.ctx, self.model, self.mon
         lat, lon = q['lat'], q['lon']
-        loc = nx.locate(model, lat, lon)
+        loc = self.locate(lat, lon)
         case = self.case('interp', lat=lat, lon=lon, method=method, cls=q.get('cls'))
         mon.begin()
         exc = res = None
@@ -765,9 +772,9 @@ class Session:
                 if best['second_ring']:
                     ctx.count('bicubic_second_ring_judged')
         if not ring:
-            ctx.ratio(method if method == 'bilinear' else 'bicubic-interior', best['worst'], 1.0)
+            ctx.ratio(method if method == 'bilinear' else 'bicubic-interior', _cap(best['worst']), 1.0)
         else:
-            ctx.maxi('bicubic-ring err/tol (known finding)', best['worst'])
+            ctx.maxi('bicubic-ring err/tol (known finding)', _cap(best['worst']))
         seen = set()
         for key, d in best['fails']:
             if key in seen:
@@ -833,7 +840,7 @@ class Session:
     def transform(self, q, method, forward):
         ctx, model, mon = self.ctx, self.model, self.mon
         lat, lon = q['lat'], q['lon']
-        loc = nx.locate(model, lat, lon)
+        loc = self.locate(lat, lon)
         case = self.case('2d', lat=lat, lon=lon, method=method, forward=forward, cls=q.get('cls'))
         mon.begin()
         exc = res = None
@@ -924,13 +931,13 @@ class Session:
             if best is None or e < best[0]:
                 best = (e, [w_lat, w_lon], [t_lat, t_lon], sg['name'])
         if ring:
-            ctx.maxi('ntv2_2d bicubic-ring err/tol (known finding)', best[0])
+            ctx.maxi('ntv2_2d bicubic-ring err/tol (known finding)', _cap(best[0]))
             if best[0] > 1.0:
                 ctx.count('bicubic_ring_failed:ntv2_2d')
                 ctx.violation(KNOWN_RING, case, {'clause': 'ntv2_2d:wrong-position', 'got': list(res), 'expected': best[1],
                                                  'subgrid': best[3]})
         else:
-            if not ctx.ratio('ntv2_2d', best[0], 1.0):
+            if not ctx.ratio('ntv2_2d', _cap(best[0]), 1.0):
                 ctx.violation('ntv2_2d:wrong-position', case, {'got': list(res), 'expected': best[1], 'tol_deg': best[2],
                                                                'subgrid': best[3], 'forward': forward})
         self.ctx.bucket('2d', model.get('layout'), method, 'fwd' if forward else 'rev', q.get('cls'),
@@ -940,6 +947,11 @@ class Session:
 # ------------------------------------------------------------------------------------------------------
 # shard
 # ------------------------------------------------------------------------------------------------------
+def _cap(x):
+    """maxima must stay finite (they travel through JSON between shard and parent)."""
+    return 1e300 if (x != x or x > 1e300) else x
+
+
 COMBOS = [('bilinear', True), ('bicubic', True), ('bilinear', False), ('bicubic', False)]
 
 
